@@ -228,20 +228,30 @@ def nearest(p, desc):
 
 def structurally_dependent(desc):
   """the exported constraint rows (equalities, inequalities, unit rows of the variables fixed by their bounds) are linearly
-  dependent once parallel rows are merged: wherever such rows become active together LICQ fails and SLSQP's success flag is
-  not reliable (reported finding); the checks do not judge optimality there"""
+  dependent: wherever such rows become active together LICQ fails and SLSQP's success flag is not reliable (reported
+  finding); the checks do not judge optimality there. The lower/upper pair of one range (opposite rows, lower < upper) counts
+  once: its two sides cannot be active together."""
   lo, hi, Aeq, beq, G, h, _ = desc
   m = len(lo)
-  rows = [np.eye(m)[i] for i in range(m) if hi[i] <= lo[i]] + [r for r in Aeq] + [r for r in G]
+  rows = [(np.eye(m)[i], None) for i in range(m) if hi[i] <= lo[i]] + [(r, None) for r in Aeq] + [(G[i], h[i]) for i in range(len(h))]
   uniq = []
-  for r in rows:
+  for r, rhs in rows:
     nr = np.linalg.norm(r)
     if nr < 1e-12:
       return True
-    u = r / nr
-    if not any(abs(abs(u.dot(v)) - 1) < 1e-9 for v in uniq):
-      uniq.append(u)
+    u, b = r / nr, (None if rhs is None else rhs / nr)
+    twin = False
+    for v, bv in uniq:
+      c = u.dot(v)
+      if abs(abs(c) - 1) < 1e-9:
+        # parallel rows: harmless only as the two sides  b <= <u,x> <= -bv  of one range with room in between
+        if b is not None and bv is not None and c < 0 and b < -bv - 1e-9:
+          twin = True
+          break
+        return True
+    if not twin:
+      uniq.append((u, b))
   if not uniq:
     return False
-  U = np.array(uniq)
+  U = np.array([u for u, _ in uniq])
   return np.linalg.matrix_rank(U, tol=1e-9) < U.shape[0]
